@@ -278,10 +278,10 @@ def lex_family(prop, tier, seed, *, relevant, select, name, cfgs, N, starts, bud
         tot['leaves'] += r['leaves']
         for k in ('queries', 'cached', 'solver_s', 'paths', 'steps'):
             tot[k] += r['stats'][k]
-        # largest number of MIR blocks one next() call executed, relative to its budget (4000 + 1500 * N)
+        # largest number of MIR blocks one next() call executed, relative to its budget (6000 + 150 * N)
         mcs = r['stats'].get('max_call_steps', 0)
         tot['max_call_steps'] = max(tot.get('max_call_steps', 0), mcs)
-        tot['max_call_fraction'] = max(tot.get('max_call_fraction', 0.0), round(mcs / (4000 + 1500 * r['N']), 3))
+        tot['max_call_fraction'] = max(tot.get('max_call_fraction', 0.0), round(mcs / (6000 + 150 * r['N']), 3))
         pd = per_def.setdefault(r['id'], dict(leaves=0, N=[], cfgs=set(), starts=set(), wall=0.0))
         pd['leaves'] += r['leaves']
         pd['N'].append(r['N'])
@@ -307,11 +307,17 @@ def lex_family(prop, tier, seed, *, relevant, select, name, cfgs, N, starts, bud
     seen = set()
     confirmed = 0
     unconfirmed = 0
+    spin_replays = spin_skipped = 0
     for d, f, r in fails:
         sig = (d.id, r['cfg'], f['what'].split(':')[0][:40], r['start'])
         if sig in seen:
             continue
         seen.add(sig)
+        if 'does not return within its step budget' in f['what']:
+            spin_replays += 1
+            if spin_replays > 6:
+                spin_skipped += 1        # same kind of failure; every native replay of a spinning lexer costs its timeout
+                continue
         try:
             ok, info = confirm_lex_failure(P, name, d, f, r)
         except build.BuildError as e:
@@ -357,6 +363,7 @@ def lex_family(prop, tier, seed, *, relevant, select, name, cfgs, N, starts, bud
         'max_fraction_of_call_step_budget': tot.get('max_call_fraction', 0.0),
         'functions_encoded': sorted(fns)[:400], 'functions_encoded_count': len(fns), 'stubs': sorted(builtins),
         'failures_confirmed_natively': confirmed, 'models_not_reproduced': unconfirmed,
+        'spinning_models_not_replayed': spin_skipped,
         'unexpected_verdicts': [d.id for d in P.unexpected],
         'build_s': P.build_s, 'prepare_s': P.prep_s, 'explore_s': explore_s,
         'checker_cmd': f'./check {prop} --tier {tier}',
@@ -654,6 +661,14 @@ def joint_report(prop, tier, seed, results, ev, confirm, n_defs, n_cfg, explanat
             if sig in seen:
                 continue
             seen.add(sig)
+            if "('spin',)" in f['what']:
+                # every native replay of a spinning lexer costs its full timeout: replay the first few, count the rest
+                spins = getattr(joint_report, '_spins', 0)
+                joint_report._spins = spins + 1
+                if spins >= 6:
+                    ev.coverage_extra = getattr(ev, 'coverage_extra', {})
+                    ev.coverage_extra['spinning_models_not_replayed'] = ev.coverage_extra.get('spinning_models_not_replayed', 0) + 1
+                    continue
             ok, info = confirm(r, f)
             if ok is False:
                 log(f'ENGINE: model did not reproduce natively on {r["id"]}: {f["what"][:200]}')
@@ -679,6 +694,7 @@ def joint_report(prop, tier, seed, results, ev, confirm, n_defs, n_cfg, explanat
     }
     if extra_cov:
         ev.coverage.update(extra_cov)
+    ev.coverage.update(getattr(ev, 'coverage_extra', {}))
     ev.assumptions = ['inputs of at most N bytes', 'valid UTF-8 for str sources', 'core builtins (stubs)']
     if tot['leaves'] == 0:
         rc = max(rc, 2)
